@@ -93,6 +93,12 @@ func buildEnum(d *dialectT, c Case, full bool, grow string) *schema.Schema {
 	col := &schema.Column{Name: val(c, "column", "col"), Type: &schema.ColumnType{Type: strT(), Null: true}}
 	col.SetDefault(&schema.Literal{V: sqlQuote(val(c, "default", "dflt"))})
 	t.AddColumns(col)
+	if d.name == "mysql" {
+		// bare text: what evaluating `default = "..."` from HCL gives the MySQL planner for a string column.
+		raw := &schema.Column{Name: "col_raw", Type: &schema.ColumnType{Type: strT(), Null: true}}
+		raw.SetDefault(&schema.Literal{V: val(c, "default_raw", "rawtext")})
+		t.AddColumns(raw)
+	}
 	if d.name == "sqlite" {
 		// the two other spellings a SQLite default literal arrives in: double-quoted (what the inspector
 		// returns for DEFAULT "...") and bare text; the planner must turn both into one SQL string.
@@ -351,6 +357,10 @@ func cases(tier string) []Case {
 	for _, slot := range []string{"default", "check_literal"} {
 		choices = append(choices, choice{map[string]string{slot: strings.Repeat("x", 70000)}})
 	}
+	// string defaults that begin like a hexadecimal literal (not embedded: the prefix matters).
+	for _, v := range []string{"0x; y", "0xAB", "0xg'h"} {
+		choices = append(choices, choice{map[string]string{"default": v}}, choice{map[string]string{"default_raw": v}})
+	}
 	if tier == "thorough" {
 		for i, s1 := range Slots {
 			for _, s2 := range Slots[i+1:] {
@@ -367,7 +377,7 @@ func cases(tier string) []Case {
 		for _, ch := range choices {
 			skip := false
 			for slot := range ch.vals {
-				if (!d.comment && strings.HasSuffix(slot, "_comment")) || (!d.enum && slot == "enum_value") || (d.name != "sqlite" && (slot == "default_dq" || slot == "default_raw")) {
+				if (!d.comment && strings.HasSuffix(slot, "_comment")) || (!d.enum && slot == "enum_value") || (d.name != "sqlite" && slot == "default_dq") || (d.name == "postgres" && slot == "default_raw") {
 					skip = true
 				}
 			}
@@ -572,7 +582,7 @@ func importCases(tier string) []Case {
 		d := dialects[dn]
 		vals := []map[string]string{{}}
 		for _, slot := range slots {
-			if (!d.comment && strings.HasSuffix(slot, "_comment")) || (!d.enum && slot == "enum_value") || (d.name != "sqlite" && (slot == "default_dq" || slot == "default_raw")) {
+			if (!d.comment && strings.HasSuffix(slot, "_comment")) || (!d.enum && slot == "enum_value") || (d.name != "sqlite" && slot == "default_dq") || (d.name == "postgres" && slot == "default_raw") {
 				continue
 			}
 			for _, sg := range Sigma {
@@ -598,7 +608,7 @@ func classifyImport(c Case, problems []string) string {
 		return k
 	}
 	for slot, v := range c.Values {
-		if c.Dialect == "mysql" && strings.HasSuffix(slot, "_comment") && strings.Contains(v, "\"") {
+		if c.Dialect == "mysql" && (strings.HasSuffix(slot, "_comment") || slot == "default_raw") && strings.Contains(v, "\"") {
 			return "mysql-backslash-escaped-comment-read-by-generic-scanner"
 		}
 	}
@@ -618,7 +628,7 @@ func classify(c Case, problems []string) string {
 			return "goose-dbmate-line-reader-drops-cr-before-lf"
 		case c.Format == "goose" && strings.Contains(v, ";\n"):
 			return "goose-line-ending-semicolon-inside-literal-splits"
-		case c.Dialect == "mysql" && strings.HasSuffix(slot, "_comment") && strings.Contains(v, "\"") &&
+		case c.Dialect == "mysql" && (strings.HasSuffix(slot, "_comment") || slot == "default_raw") && strings.Contains(v, "\"") &&
 			(c.Format == "dbmate" || c.Format == "flyway" || c.Format == "golang-migrate" || c.Format == "goose"):
 			return "mysql-backslash-escaped-comment-read-by-generic-scanner"
 		}
